@@ -117,6 +117,7 @@ func c17(c *Ctx) {
 		"condition, or reported; the structured error's fields come from the server's code, the normalised name and the parsed parameter; an unknown data " +
 		"centre yields an error, a known one stores the address and reconnects before the request is re-issued."
 	r.NotDecided = []string{"delivery of the error to the right caller beyond the registration order (C09)", "that the reconnect after PHONE_MIGRATE succeeds (network)"}
+	c.errorsKept("R17.X", "the request path (MakeRequest, makeRequest, sendPacket, tryToProcessErr, Reconnect)", 4, rootMethods("MakeRequest", "MakeRequestWithHintToDecoder", "makeRequest", "sendPacket", "tryToProcessErr", "Reconnect", "Disconnect"))
 	r.Rule("R17.T", "prefix/suffix table ⊆ catalogue, one verb per parametrised text, kinds ⊆ {Int,String}, unambiguous, PHONE_MIGRATE_ is Int", 16)
 	r.Rule("R17.P", "every panic-capable operation reachable from RpcErrorToNative / tryToProcessErr / the error arm of makeRequest is discharged, accepted under a checked table condition, or a finding", 3)
 	r.Rule("R17.F", "field provenance of ErrResponseCode: Code ← ErrorCode, Message ← normalised name, AdditionalInfo ← parsed parameter; RpcErrorToNative returns *ErrResponseCode on every path", 4)
@@ -220,6 +221,21 @@ func c17(c *Ctx) {
 						if subs, ok := want[fn]; ok {
 							o := tr.OriginString(st.Val)
 							r.Check(originHasAll([]string{o}, subs), "R17.F", "field:"+fn, c.pos(st.Pos()), fn+" ← "+simplifyOrigin(o))
+							if fn == "Code" {
+								// the server's code itself: the conversion of the field load, no arithmetic, no
+								// choice between two values (a sign "normalised" away is another code)
+								exact := false
+								v := st.Val
+								if cv, ok := v.(*ssa.Convert); ok {
+									v = cv.X
+								}
+								if ld, ok := v.(*ssa.UnOp); ok && ld.Op == token.MUL {
+									if fa2, ok := ld.X.(*ssa.FieldAddr); ok && an.FieldName(fa2.X.Type(), fa2.Field) == "objects.RpcError.ErrorCode" {
+										exact = true
+									}
+								}
+								r.Check(exact, "R17.F", "field:Code/the-servers-code-itself", c.pos(st.Pos()), "Code is "+st.Val.String()+" (must be the conversion of rpc_error.error_code and nothing else)")
+							}
 							delete(want, fn)
 						}
 					}
